@@ -2577,7 +2577,10 @@ class Recipe:
                     flows["out"] += vfunc(step.frm[0].wells) - vfunc(step.frm[1].wells)
         precision = config.precisions[unit] if unit in config.precisions else config.precisions['default']
         for key in flows:
-            flows[key] = round(flows[key], precision)
+            if isinstance(flows[key], np.ndarray):
+                flows[key] = flows[key].round(precision)
+            else:
+                flows[key] = round(flows[key], precision)
 
         return flows
 
